@@ -95,9 +95,9 @@ Lemma buf_marker_step c st l st' o x : cstep c st l = StepOk st' o -> In (IWait 
 Proof.
   intros H. destruct l as [a op|a|h|h|dt|].
   - destruct op; crush_step H; open_shapes; unemit_all; rp; auto.
-    all: intros X; apply in_app_or in X; destruct X as [X|[X|[]]]; auto; inversion X; subst; auto.
   - cbn [cstep] in H. unfold continue_client in H. destruct (client_of st a) eqn:CA; crush_step H; open_shapes; unemit_all; auto.
     all: intros X; apply in_app_or in X; destruct X as [X|[X|[]]]; auto; try discriminate X.
+    all: try (inversion X; subst; auto; fail).
     all: subst; right; left; eexists; eexists; eassumption.
   - crush_step H; open_shapes; unemit_all; auto; try (intros []).
     all: intros X; left; right; exact X.
@@ -224,11 +224,11 @@ Qed.
 
 (* sending the marker: everything in the buffer at that moment is ahead of it *)
 Lemma wait_send_ahead c st a st1 id :
-  IdBound st ->
-  cstep c st (LOp a OWait) = StepOk st1 (mk_out PtWaitAfterSend [] RNone) -> client_of st1 a = KWaitAfterSend id ->
+  IdBound st -> client_of st a = KWaitStart ->
+  cstep c st (LClient a) = StepOk st1 (mk_out PtWaitAfterSend [] RNone) -> client_of st1 a = KWaitAfterSend id ->
   ahead st1 id (length (s_buf st)).
 Proof.
-  intros I H W. cbn [cstep] in H. destruct (client_of st a); try discriminate. unfold start_op in H. destruct (s_closed st); [discriminate|].
+  intros I K H W. cbn [cstep] in H. unfold continue_client in H. rewrite K in H.
   cbn [fresh_id] in H. unfold buf_send in H. sproj.
   assert (F : forall x, has_id st x -> x <> s_next_id st) by (intros x X; specialize (I x X); lia).
   destruct (s_pc st) eqn:PC; try discriminate;
@@ -243,20 +243,20 @@ Proof.
     intros X; apply (F (s_next_id st)); [left; exact X|reflexivity].
 Qed.
 
-(* C10, the barrier.  A thread calls wait() in a reachable state st0 and its marker is queued.
+(* C10, the barrier.  A thread inside wait() (past its is_closed check) queues its marker in a reachable state st0.
    Follow any continuation of the run, counting down the slots that were in the buffer at that
    moment as the processor consumes them.  Whenever the marker has been released (wait() can
    return Ok) the count is zero: every item that was queued before the marker — in particular
    everything the same thread sent before calling wait() — has been taken by the processor at its
    loop head, or discarded by a drain for clear() / close(). *)
 Theorem wait_is_a_barrier c mc t now st0 a st1 id st n :
-  reach c (cinit c mc t now) st0 ->
-  cstep c st0 (LOp a OWait) = StepOk st1 (mk_out PtWaitAfterSend [] RNone) -> client_of st1 a = KWaitAfterSend id ->
+  reach c (cinit c mc t now) st0 -> client_of st0 a = KWaitStart ->
+  cstep c st0 (LClient a) = StepOk st1 (mk_out PtWaitAfterSend [] RNone) -> client_of st1 a = KWaitAfterSend id ->
   btrace c st1 (length (s_buf st0)) st n ->
   mem_N id (s_done st) = true -> n = 0%nat.
 Proof.
-  intros R H W T D.
-  pose proof (wait_send_ahead c st0 a st1 id (reachable_IdBound _ _ _ _ _ R) H W) as A.
+  intros R K H W T D.
+  pose proof (wait_send_ahead c st0 a st1 id (reachable_IdBound _ _ _ _ _ R) K H W) as A.
   destruct (ahead_trace _ _ _ _ _ _ T A) as [(D' & _)|E]; [congruence|exact E].
 Qed.
 
